@@ -167,13 +167,31 @@ Definition mutate (kind : Z) (r : response) : sresult :=
   | 15 => SResp (map_b1 (fun b => (0, bt_more b, bt_szx b)) r)                (* acknowledgement always names block 0 *)
   | 16 => SResp (map_b2 (fun b => (bt_num b + 1, false, bt_szx b)) r)         (* Block2 names a later block and claims to be final *)
   | 17 => SResp (set_etag None r)                                             (* ETag missing on one block *)
+  | 20 => SResp (map_b2 (fun b => (bt_num b / 2, false, Z.min 6 (bt_szx b + 1))) r)       (* Block2 SZX grown, NUM rounded down, claims to be final *)
+  | 21 => SResp (map_b2 (fun b => (bt_num b / 2, bt_more b, Z.min 6 (bt_szx b + 1))) r)  (* Block2 SZX grown, NUM rounded down *)
   | _ => SResp r
   end.
+
+(* misbehaviours 18 / 19: the server answers a Block2 request with a LARGER block than it was asked for (size exponent grown by 1 / 2,
+   ignoring its policy): it serves the block of the larger size that contains the requested offset, i.e. it starts up to size-1 bytes
+   BEFORE the requested offset when that offset is not a multiple of the larger size *)
+Definition grow_request (grow : Z) (rq : request) : request :=
+  match rq_block2 rq with
+  | Some (n, m, s) => let s' := Z.min 6 (s + grow) in
+                      {| rq_block1 := rq_block1 rq; rq_block2 := Some (n * 2 ^ (s + 4) / 2 ^ (s' + 4), m, s'); rq_size1 := rq_size1 rq; rq_payload := rq_payload rq |}
+  | None => rq
+  end.
+Definition with_policy2 (cfg : scfg) (l : list Z) : scfg :=
+  {| s_policy1 := s_policy1 cfg; s_policy2 := l; s_reps := s_reps cfg; s_rep_at := s_rep_at cfg; s_atomic := s_atomic cfg; s_mis := s_mis cfg; s_bert := s_bert cfg |}.
 
 Definition serve_ref (cfg : scfg) (st : sstate) (rq : request) : sstate * sresult :=
   let '(st', r) := honest cfg st rq in
   match s_mis cfg with
-  | Some (k, kind) => if k =? sv_step st then (st', mutate kind r) else (st', SResp r)
+  | Some (k, kind) =>
+    if k =? sv_step st then
+      if (kind =? 18) || (kind =? 19) then let '(st2, r2) := honest (with_policy2 cfg [6]) st (grow_request (kind - 17) rq) in (st2, SResp r2)
+      else (st', mutate kind r)
+    else (st', SResp r)
   | None => (st', SResp r)
   end.
 
